@@ -454,8 +454,9 @@ class C20(Check):
         "expected_demand against a real demand-driven WNTRSimulator run.",
         design_ref="DESIGN.md §5 C20",
         note="the formula translator flattens pandas to one time / one element and trusts its own reading of the pandas / WaterNetworkModel API "
-        "(`.loc[:, names]`, `.sum(axis=1)`, `wn.pumps()` ...; anything outside its subset is reported as a broken tie); label alignment, float rounding "
-        "and scipy curve_fit are exercised by the differential run, not modelled; exp / log / ** and the curve interpolations are uninterpreted "
+        "(`.loc[:, names]`, `.sum(axis=1)`, `wn.pumps()` ...; anything outside its subset is reported as a broken tie); it tracks how operands are paired "
+        "(label-aligned by element name, by node name, or by position for numpy arrays) and refuses mis-paired operations, the keyed theorems name the "
+        "element of every factor; float rounding and scipy curve_fit are exercised by the differential run, not modelled; exp / log / ** and the curve interpolations are uninterpreted "
         "symbols in the theorems (numpy.interp / _interp_extrapolate, Pattern.at, Demands.at, average_expected_demand and _gcd/_lcm are hand "
         "transliterations tied by the differential run); the naming of inputs (Row / Env builders in Props/C20.lean) is hand-written glue; "
         "the general-exponent maximum-pump-power value is evaluated in Lean Float; interpolated patterns are covered by periodicity only",
